@@ -48,6 +48,7 @@ _RULES = {
     "RELEX-WINDOW": rules_more.rule_relex_window,
     "UPDATE-ORDER": rules_more.rule_update_order,
     "NO-MERGE": rules_more.rule_no_merge,
+    "CURSOR-CMP": rules_more.rule_cursor_cmp,
     "COMMENT-LEX": rules_units.rule_comment_lex,
     "STRIP-REBUILD": rules_more.rule_strip_rebuild,
     "DIAG-FLAG": rules_more.rule_diag_flag,
